@@ -105,7 +105,7 @@ CHECKS = [
         "stack-shuffling / multi-push opcode with small immediates (length 4 over the shuffle core in thorough), the complete per-opcode "
         "table, control opcodes as last instruction: a position machine driven by the independent table decides which instruction "
         "produced every operand (or 'before the block'), and construct_stack_ast must agree slot by slot, including the declared "
-        "pop/push counts. All {int, txn, &&, ||, !} code sequences up to 7 instructions check And/Or flattening (leaves in order, "
+        "pop/push counts; an operand the tool reads as an integer literal must carry the value really pushed at that producer and position. All {int, txn, &&, ||, !} code sequences up to 7 instructions check And/Or flattening (leaves in order, "
         "has_unknown) against an independent symbolic evaluation.",
         "Trusted: pops/pushes of mc/spec.py (single source, from the AVM specification).",
         "bounded-exhaustive enumeration of instruction sequences against a reference position machine (no sampling)",
